@@ -10,6 +10,7 @@ import DSV.Model.Lock
 import DSV.Model.Create
 import DSV.Model.GcRun
 import DSV.Model.GcRace
+import DSV.Model.Reader
 /-!
 Line-protocol driver: one request per line on stdin, one reply per line on stdout.
 First token selects the model function.  Imports only `DSV.Model.*` (core Lean), so it links natively.
@@ -770,6 +771,24 @@ def handleRace (args : List String) : String :=
           | none => s!"fail step {i}: not enabled"
     go (init files committed) 0 acts
 
+/-! #### reader -/
+open DSV.Reader in
+def handleRd (args : List String) : String :=
+  match args with
+  | [dr, tl, i, j] =>
+      let vers : Option (List Ver) := (tl.splitOn ",").mapM fun t =>
+        match t.splitOn "/" with
+        | [h, n] => n.toNat?.map fun k => (⟨h = "1", List.replicate k 0⟩ : Ver)
+        | _ => none
+      match vers, i.toNat?, j.toNat? with
+      | some vs, some a, some b =>
+          match getAllDataFiles (dr = "1") vs a b with
+          | some (.rows r) => toString r.length
+          | some .raiseInconsistent => "raise"
+          | none => "out-of-range"
+      | _, _, _ => "bad-op"
+  | _ => "bad-op"
+
 def handle (line : String) : String :=
   match splitWs line with
   | [] => "bad-op"
@@ -781,6 +800,7 @@ def handle (line : String) : String :=
     else if cmd.startsWith "meta." then handleMeta cmd args
     else if cmd = "gc.run" then handleGcRun args
     else if cmd = "gcrace.trace" then handleRace args
+    else if cmd = "rd.get" then handleRd args
     else if cmd.startsWith "gc." then handleGc cmd args
     else if cmd = "occ.trace" then handleOcc args
     else if cmd = "create.trace" then handleCreate args
